@@ -528,6 +528,9 @@ const versionFormat = "20060102150405"
 
 // NewVersion generates a new migration version.
 func NewVersion() string {
+	if v, ok := verifNow(); ok {
+		return v
+	}
 	return time.Now().UTC().Format(versionFormat)
 }
 
